@@ -111,7 +111,7 @@ var soundFamilies = []string{"framing", "der-edits", "body-r", "body-s", "values
 
 func sound(x *mon.Ctx) {
 	selfTest(x)
-	nb := x.Scale(72, 600)
+	nb := x.Scale(72, 500)
 	for idx := 0; idx < nb; idx++ {
 		for _, fam := range soundFamilies {
 			c := x.Begin("sound base=%d family=%s (base signature: key/uid/msg/k from NewRand(seed,\"c06.sound.base\",%d))", idx, fam, idx)
@@ -428,9 +428,12 @@ func (b *base) foreign(c *mon.Case) {
 	}
 	// other digests
 	var ds [][]byte
-	for i := 0; i < 6; i++ {
+	// single-bit flips: limb and byte boundaries of e (e does not move the point
+	// [s]G+[t]P, so these isolate the final comparison), plus three random bits
+	bits := []int{255, 254, 248, 247, 192, 191, 128, 127, 64, 63, 8, 7, 0, c.R.Intn(256), c.R.Intn(256), c.R.Intn(256)}
+	for _, bit := range bits {
 		d := append([]byte{}, in.e...)
-		d[c.R.Intn(32)] ^= 1 << uint(c.R.Intn(8))
+		d[31-bit/8] ^= 1 << uint(bit%8)
 		ds = append(ds, d)
 	}
 	ei := new(big.Int).SetBytes(in.e)
